@@ -144,6 +144,9 @@ fn svg_record(seed: u64, n: u64, target: usize, path: &str) -> Value {
             // terminator, a style change): still "a carriage return before a newline"
             3 => format!("ab\r\x1b[K\ncd\r\x1b[0m\nef\r\x1b]8;;\x1b\\\ngh\x1b[1m\r\x1b[K\x1b[K\nij{}", svg_text(&mut r, target / 2)),
             4 if k % 2 == 0 => format!("kl\r\x1b[31m\nmn\x1b[0m\r\x1b[4m\x1b[K\nop{}", svg_text(&mut r, target / 2)),
+            // no escape sequence at all, but controls that are executed (BEL, BS, SOH, VT, SO): the text goes through the same
+            // extraction whether or not a sequence is present
+            5 if k % 2 == 1 => format!("done\x07 plain\x08 text\x01 with\x0b controls\x0e\nsecond line {}\n", (0..r.range(0, 9)).map(|_| r.range(0x20, 0x7e) as u8 as char).filter(|c| *c != '\x7f').collect::<String>()),
             _ => svg_text(&mut r, target),
         };
         let (pname, pal) = if r.chance(1, 2) { ("VGA", anstyle_svg::VGA) } else { ("WIN10", anstyle_svg::WIN10_CONSOLE) };
